@@ -89,4 +89,88 @@ theorem circle_arc_law (α β : ℝ) (h0 : 0 ≤ α) (hab : α ≤ β) (h1 : β 
 example : volume {v : ℝ | v ∈ Icc (0:ℝ) 1 ∧ two * Transc.pi * v ∈ Icc 0 Real.pi} = ENNReal.ofReal ((Real.pi - 0) / (2 * Real.pi)) :=
   circle_arc_law 0 Real.pi le_rfl Real.pi_pos.le (by linarith [Real.pi_pos])
 
+/-! ### the perimeter samplers of the model are these walks, traversed at unit speed -/
+
+/-- `ParallelogramBoundary.sample_random_uniform` IS the perimeter walk at position `u·2(l₁+l₂)` with the side
+    lengths the code computes with norms (definitional unfolding of the model). -/
+theorem parBdrySample_eq_walk (ox oy ax ay bx cy u : ℝ) :
+    parBdrySample ox oy ax ay bx cy u =
+      parBdryWalk ox oy ax ay bx cy (norm2 (ax - ox) (ay - oy)) (norm2 (bx - ox) (cy - oy))
+        (u * (two * (norm2 (ax - ox) (ay - oy) + norm2 (bx - ox) (cy - oy)))) := rfl
+
+/-- `TriangleBoundary.sample_random_uniform` IS the perimeter walk at position `u·(l₁+l₂+l₃)`. -/
+theorem triBdrySample_eq_walk (ox oy ax ay bx cy u : ℝ) :
+    triBdrySample ox oy ax ay bx cy u =
+      triBdryWalk ox oy ax ay bx cy (norm2 (ax - ox) (ay - oy)) (norm2 (bx - ax) (cy - ay)) (norm2 (ox - bx) (oy - cy))
+        (u * (norm2 (ax - ox) (ay - oy) + norm2 (bx - ax) (cy - ay) + norm2 (ox - bx) (oy - cy))) := rfl
+
+/-- the model's `norm2` is the Euclidean length: its square is `x² + y²`, and it is positive for a non-zero vector
+    (the hypotheses `0 < l₁, l₂, l₃` of the edge theorems hold for non-degenerate shapes) -/
+theorem norm2_sq (x y : ℝ) : norm2 x y ^ 2 = x ^ 2 + y ^ 2 := by
+  show Real.sqrt (x * x + y * y) ^ 2 = _
+  rw [Real.sq_sqrt (by nlinarith [sq_nonneg x, sq_nonneg y])]; ring
+
+theorem norm2_pos (x y : ℝ) (h : x ≠ 0 ∨ y ≠ 0) : 0 < norm2 x y := by
+  show 0 < Real.sqrt (x * x + y * y)
+  apply Real.sqrt_pos.2
+  rcases h with h | h
+  · nlinarith [sq_nonneg y, sq_pos_of_ne_zero h]
+  · nlinarith [sq_nonneg x, sq_pos_of_ne_zero h]
+
+/-- **Unit speed on an edge**: two perimeter positions `s, s'` on the same edge (start `p`, direction `d`, length
+    `l = |d|`, start parameter `a`; the form all `…BdryWalk_edge…` theorems give) are mapped to points whose Euclidean
+    distance is `|s' − s|`: the perimeter parameter is arclength, so the uniform parameter (`perimeter_param_law`) is
+    the uniform law with respect to arclength. -/
+theorem edge_unit_speed (px py dx dy l a s s' : ℝ) (hl : 0 < l) (hlen : l ^ 2 = dx ^ 2 + dy ^ 2) :
+    ((px + (s' - a) / l * dx) - (px + (s - a) / l * dx)) ^ 2 + ((py + (s' - a) / l * dy) - (py + (s - a) / l * dy)) ^ 2
+      = (s' - s) ^ 2 := by
+  have hl0 : l ≠ 0 := hl.ne'
+  have : ((px + (s' - a) / l * dx) - (px + (s - a) / l * dx)) ^ 2 + ((py + (s' - a) / l * dy) - (py + (s - a) / l * dy)) ^ 2
+      = (s' - s) ^ 2 / l ^ 2 * (dx ^ 2 + dy ^ 2) := by field_simp; ring
+  rw [this, ← hlen]; field_simp
+
+example : ((0 + ((3:ℝ) - 1) / 5 * 3) - (0 + (2 - 1) / 5 * 3)) ^ 2 + ((0 + ((3:ℝ) - 1) / 5 * 4) - (0 + (2 - 1) / 5 * 4)) ^ 2 = (3 - 2) ^ 2 :=
+  edge_unit_speed 0 0 3 4 5 1 2 3 (by norm_num) (by norm_num)
+
+/-- second edge of the coded parallelogram boundary sampler, with the code's own lengths: for a non-degenerate
+    parallelogram and a draw `u` whose perimeter position lies on edge 2, the sample is `corner_1 + ((s − l₁)/l₂)·dir_2`. -/
+theorem parBdrySample_edge2 (ox oy ax ay bx cy u : ℝ) (h1 : ax - ox ≠ 0 ∨ ay - oy ≠ 0) (h2 : bx - ox ≠ 0 ∨ cy - oy ≠ 0)
+    (hs0 : norm2 (ax - ox) (ay - oy) ≤ u * (two * (norm2 (ax - ox) (ay - oy) + norm2 (bx - ox) (cy - oy))))
+    (hs1 : u * (two * (norm2 (ax - ox) (ay - oy) + norm2 (bx - ox) (cy - oy))) ≤
+      norm2 (ax - ox) (ay - oy) + norm2 (bx - ox) (cy - oy)) :
+    parBdrySample ox oy ax ay bx cy u =
+      (ax + (u * (two * (norm2 (ax - ox) (ay - oy) + norm2 (bx - ox) (cy - oy))) - norm2 (ax - ox) (ay - oy)) /
+          norm2 (bx - ox) (cy - oy) * (bx - ox),
+       ay + (u * (two * (norm2 (ax - ox) (ay - oy) + norm2 (bx - ox) (cy - oy))) - norm2 (ax - ox) (ay - oy)) /
+          norm2 (bx - ox) (cy - oy) * (cy - oy)) := by
+  rw [parBdrySample_eq_walk]
+  exact parBdryWalk_edge2 _ _ _ _ _ _ _ _ _ (norm2_pos _ _ h1) (norm2_pos _ _ h2) hs0 hs1
+
+/-! ### non-vacuity examples for the push-forward laws of C11Affine / C11Meas -/
+
+example : Measure.map (parMap 1 1 3 1 2 4) (volume.restrict (Icc 0 1)) =
+    (ENNReal.ofReal |parDet 1 1 3 1 2 4|)⁻¹ • volume.restrict (parMap 1 1 3 1 2 4 '' Icc 0 1) :=
+  par_law 1 1 3 1 2 4 (by norm_num [parDet])
+
+example : Measure.map (triMap 1 1 3 1 2 4) (volume.restrict (Icc 0 1)) =
+    (ENNReal.ofReal |parDet 1 1 3 1 2 4| / 2)⁻¹ • volume.restrict (parMap 1 1 3 1 2 4 '' triT) :=
+  tri_law 1 1 3 1 2 4 (by norm_num [parDet])
+
+example (D : Set (Fin 2 → ℝ)) : Measure.map (parMap 1 1 3 1 2 4) (volume.restrict D) =
+    (ENNReal.ofReal |parDet 1 1 3 1 2 4|)⁻¹ • volume.restrict (parMap 1 1 3 1 2 4 '' D) :=
+  par_law_on 1 1 3 1 2 4 (by norm_num [parDet]) D
+
+/-- instance of `cond_map_of_scaling`: the translation by `t` as a measurable equivalence of the plane (scaling factor 1) -/
+example (t : ℝ × ℝ) (D : Set (ℝ × ℝ)) :
+    Measure.map (MeasurableEquiv.addRight t) (ProbabilityTheory.cond volume D) =
+      ProbabilityTheory.cond volume (MeasurableEquiv.addRight t '' D) :=
+  cond_map_of_scaling volume (MeasurableEquiv.addRight t) 1 one_ne_zero ENNReal.one_ne_top
+    (by rw [one_smul]; exact map_add_right_eq_self volume t) D
+
+/-- instance of `scaling_map_law` / `image_cell_law`: the quarter turn about (5, 7) -/
+example (D : Set (Fin 2 → ℝ)) : Measure.map (rotateMap 0 (-1) 1 0 5 7) (volume.restrict D) =
+    (1 : ENNReal)⁻¹ • volume.restrict (rotateMap 0 (-1) 1 0 5 7 '' D) :=
+  scaling_map_law _ (rotateMap_measurable _ _ _ _ _ _) 1 one_ne_zero ENNReal.one_ne_top
+    (fun R => by rw [one_mul]; exact rotation_image_volume 0 (-1) 1 0 5 7 (by norm_num) R) D
+
 end TPV.Geom
